@@ -311,6 +311,10 @@ impl Response {
 
 pub fn be_packet(input: &[u8]) -> IResult<&[u8], (TransactionId, Packet)> {
     let (remain, typ) = be_u16(input)?;
+    if remain.len() < 16 {
+        // a datagram too short to carry the transaction id is malformed, not a reason to panic
+        return Err(Err::Error(Error::new(input, ErrorKind::Eof)));
+    }
     let (txid, remain) = remain.split_at(16);
     let (remain, packet) = match typ {
         BINDING_REQUEST => map(be_request, Packet::Request).parse(remain)?,
